@@ -29,6 +29,11 @@ structure HttpRequest where
   contentLength : Int
   deriving Inhabited
 
+/-- what the package reads of an `http.ResponseWriter` before writing: `.Header().Get(key)` -/
+structure HttpWriter where
+  header : Str → Str
+  deriving Inhabited
+
 /-- a compiled `*regexp.Regexp` as its `FindStringSubmatch` function (`[]` = nil = no match; a match has at
     least one element); `MatchString s` is `!(re s).isEmpty` -/
 abbrev Regexp := Str → List Str
